@@ -123,6 +123,15 @@ def ceval(n, env, prog=None, depth=0):
         if f is None:
             raise CannotEvaluate("operator %s" % op)
         return f()
+    if k in ("ArraySubscriptExpr",) and "$str" in env:
+        b0 = s.child(0).strip_all_casts()
+        if b0.k == "DeclRefExpr" and b0["decl"]["name"] in env["$str"]:
+            data = env["$str"][b0["decl"]["name"]]
+            i_ = ceval(s.child(1), env, prog, depth)
+            if not isinstance(i_, int) or i_ < 0:
+                raise CannotEvaluate("index")
+            v_ = data[i_] if i_ < len(data) else 0
+            return v_ if v_ < 128 else v_ - 256            # read through plain (signed) char
     if k in ("ArraySubscriptExpr",) and "$c" in env and (s.get("path") or "").endswith("pos[0]"):
         return env["$c"]
     if k == "UnaryOperator" and s.get("op") == "*" and "$c" in env and (s.child(0).strip().get("path") or "").endswith("pos"):
@@ -246,6 +255,52 @@ def run_to_branch(f, start, env, target, prog=None, limit=400):
             if c is target or any(x is target for x in c.walk()):
                 return ceval(target, env, prog)
             v = ceval(c, env, prog)
+            b = b.succs[0] if v else b.succs[1]
+            if b is None:
+                raise CannotEvaluate("pruned edge")
+        else:
+            live = [s_ for s_ in b.succs if s_ is not None]
+            if not live:
+                raise CannotEvaluate("fell off %s" % f.name)
+            b = live[0]
+
+
+def run_with_strings(f, args, strings, prog=None, limit=2000):
+    """evaluate a small function (loops, stores to scalar locals, reads of its string parameters) on one point of an
+    exhaustively enumerated finite input domain: `strings` maps parameter names to byte sequences (bytes beyond the end read
+    as 0), `args` gives the scalar arguments by name.  Returns the value returned."""
+    env = dict(args)
+    env["$str"] = strings
+    b = f.entry
+    steps = 0
+    while True:
+        steps += 1
+        if steps > limit:
+            raise CannotEvaluate("no termination within %d blocks in %s" % (limit, f.name))
+        for e in b.elems:
+            op = e.get("op")
+            if e.k == "ReturnStmt":
+                return ceval(e.child(0), env, prog) if e.ch else 0
+            if e.k in ("BinaryOperator", "CompoundAssignOperator") and op in ("=", "+=", "-="):
+                t = e.child(0).strip()
+                if t.k != "DeclRefExpr" or t.get("tk") == "ptr":
+                    raise CannotEvaluate("store to %s" % t.src)
+                r = ceval(e.child(1), env, prog)
+                name = t["decl"]["name"]
+                if op != "=":
+                    r = env[name] + r if op == "+=" else env[name] - r
+                env[name] = r
+            elif e.k == "UnaryOperator" and op in ("++", "--"):
+                t = e.child(0).strip()
+                if t.k != "DeclRefExpr" or t.get("tk") == "ptr" or t["decl"]["name"] not in env:
+                    raise CannotEvaluate("step of %s" % t.src)
+                env[t["decl"]["name"]] += 1 if op == "++" else -1
+            elif e.k == "DeclStmt":
+                for d in e.get("decls", []):
+                    if "init" in d and d["type"].get("tk") in ("int", "bool", "enum"):
+                        env[d["name"]] = ceval(f.nodes[d["init"]], env, prog)
+        if b.cond is not None and len(b.succs) == 2 and b.term_kind != "SwitchStmt":
+            v = ceval(b.cond, env, prog)
             b = b.succs[0] if v else b.succs[1]
             if b is None:
                 raise CannotEvaluate("pruned edge")
